@@ -334,6 +334,11 @@ def run(ctx):
     ctx.rule = RULE
     ctx.lean_check("Mashu.Props.C12", THEOREMS, extra_targets=["Mashu.Dispatch"])
     rng = ctx.rng
+    # repaired defects first: their witnesses must keep passing
+    corpus = [f["witness"]["history"] for f in ctx.known if f.get("status") == "fixed" and "history" in f.get("witness", {})]
+    if corpus:
+        run_batch(ctx, corpus, 900000)
+        ctx.bump("corpus(fixed findings)", len(corpus))
     n = 1500 if ctx.tier == "quick" else 30000
     done = 0
     while done < n:
